@@ -825,3 +825,15 @@ def fw_target_loop_died(order=('A', 'B')):
                 ['B', 'L', 'hLB', [['raise', 'CancelledError']]]]
     main = [['root', 'B', 'L', 'L0'], ['sleep', 't1'], ['root', 'A', 'P', 'P1'], ['await', 'P1'], ['sleep', '1'], ['obs_all', 'end']]
     return dict(buses=['A', 'B'], order=list(order), reals={'d1': D, 't1': ['1/100', '3/10']}, handlers=handlers, forwards=[['A', 'B']], main=main, horizon=7)
+
+
+
+def read_after_completion(parallel=False):
+    """three handlers return lists / dicts; after the event has been observed complete it is read through every result accessor,
+    twice, with observations in between: reading must not change what was recorded."""
+    handlers = [['A', 'P', 'hP0', [['sleep', 'd1'], ['ret', ['x1', 'x2']]]], ['A', 'P', 'hP1', [['ret', ['y1']]]],
+                ['A', 'P', 'hP2', [['ret', ['z1', 'z2']]]], ['A', 'L', 'hL0', [['ret', {'a': 1}]]], ['A', 'L', 'hL1', [['ret', {'b': 2}]]]]
+    main = [['root', 'A', 'P', 'P1'], ['root', 'A', 'L', 'L1'], ['await', 'P1'], ['obs', 'after_await', 'P1'], ['await', 'L1'], ['obs', 'after_await', 'L1'],
+            ['accessors_all', 'P1'], ['accessors_all', 'L1'], ['obs', 'read_once', 'P1'], ['obs', 'read_once', 'L1'],
+            ['accessors_all', 'P1'], ['accessors_all', 'L1'], ['idle', 'A'], ['obs_all', 'end']]
+    return dict(buses=['A'], parallel=['A'] if parallel else [], reals={'d1': D}, handlers=handlers, main=main, horizon=5)
